@@ -319,8 +319,13 @@ FORMS = ["5 * (8h * t)", "(7 * 10y^3) * x", "(7q * 10y^3) * x", "792z^4 * 490f *
          "x * (0.0000004 * 0.0000002)", "(0.000002 / 3000000) * x + y", "0.00005x + 1", "0.001 * 0.02 + x", "0.0001x + 0.0002x", "1000000 * 0.000001x",
          "x - 3^2 * x", "a - 3^2", "-(3^2) * x", "4 - -(x * y)", "3 / -((x + 1) * y)", "(x^2)^3 * x", "(x^y)^z", "2^(x^2)",
          "7 - (2 + 3)", "7 - (2 - x)", "7 / (2 / x)", "7 / (2 * x)", "2 ^ (3 ^ x)", "5 - (3 - x)", "8 / (4 / x)", "5 + (3 - x)", "5 * (3 / x)", "5 + (3 + -1x)",
+         "3x + 4X + 2y", "X * x", "(3c * u^3) * 7U^3 + c", "x^2 + X^2", "2X + 3X", "xX * Xx", "4x * 2X^2", "K + k + 2K",
+         "0.5x + 0.5y", "0.25 + 0.25q", "(z + 0.5x) + 0.5y", "0.5x^2 + 0.5x", "0.75y^3 + 0.75y", "0.5x + 0.5x^2 + y",
+         "-6 + 4", "-12 + 8", "-6 + -9", "12 + -8", "-4 + -6x", "-6x + -9x",
+         "12345678901234567890 * 98765432109876543210", "99999999999999999999 + 1", "2000000000.5 + 1", "1000000 + 0.0005", "4000000.002 * 2", "123456.5 - 0.25",
+         "0.000002 * 0.0000003 * x + 0.5", "0.00000000000000001 * 0.00000000000000001", "1 / 3 + x", "(2 / 3) * x", "10 / 4", "7 / -2",
          "x^0 * x^2", "x^(2 - 2) * x^3", "x^0 + x^0", "0x + 0x", "1x * 1x", "-x * -x", "-x + -x", "x^-1 * x", "2x^-2 * 3x^2"]
-EQ_FORMS = ["x + -2y^2 = 3", "7 = 4x + -y^3", "-2x^2 + 1 = 9", "x + -0.5y^3 = 2", "2 * ((x + 1) + 5) = 20", "((x + 1) + 5)^2 = 4", "-((x + 1) + 5) = 3", "4 - ((x + 1) + y) = 0",
+EQ_FORMS = ["x + 1 = y = 3", "x = y + 2 = 5", "2x = 4 = y + 1", "0.00000000001x = 2", "0.0000001x = 3", "y + 4x * 2X^2 = 7", "3x + 4X = 7", "x + -2y^2 = 3", "7 = 4x + -y^3", "-2x^2 + 1 = 9", "x + -0.5y^3 = 2", "2 * ((x + 1) + 5) = 20", "((x + 1) + 5)^2 = 4", "-((x + 1) + 5) = 3", "4 - ((x + 1) + y) = 0",
             "((x + 1) + 5) / 2 = y", "sgn((x + 1) + 2) = 1", "3x = 6 + 9y", "7 = 2 + 4x + y", "a + (3b + c) = 9", "7 = x + 2 + y", "y + (x + 2) = 7", "3 = x + 2 + 7",
             "2 * 3x = 12", "(2 * 3)x = 12", "x + 2 = 5", "3y + x = 7 + 2x", "2x + 3x = 10", "x * x = 4", "0.5x = 0.25", "-3x = 9", "x / 2 + 1 = 3", "2(x + 1) + 3 = 9"]
 
